@@ -249,28 +249,46 @@ func c20(p *Prog, r *Report) {
 	// ---- R4
 	if ev := anchor(p, r, R4, "(~/tokens/type3.RateLimitedIssuer).Evaluate"); ev != nil {
 		s := p.NewSym(ev)
-		var lookups []*ssa.Lookup
-		for _, b := range ev.Blocks {
-			for _, in := range b.Instrs {
-				if lk, ok := in.(*ssa.Lookup); ok && lk.CommaOk {
-					lookups = append(lookups, lk)
+		// comma-ok lookups in Evaluate or in an in-module helper it calls, each
+		// evaluated with the helper's parameters bound to Evaluate's arguments
+		type lkc struct {
+			lk *ssa.Lookup
+			s  *Sym
+		}
+		var lookups []lkc
+		var collect func(cs *Sym, f *ssa.Function, depth int)
+		collect = func(cs *Sym, f *ssa.Function, depth int) {
+			for _, b := range f.Blocks {
+				for _, in := range b.Instrs {
+					if lk, ok := in.(*ssa.Lookup); ok && lk.CommaOk {
+						lookups = append(lookups, lkc{lk, cs})
+					}
+					if c, ok := in.(*ssa.Call); ok && depth < 3 {
+						if g := c.Call.StaticCallee(); g != nil && InModule(g) && g.Blocks != nil && fnPkgPath(g) == fnPkgPath(ev) && !isDecoder(g) {
+							ch := cs.child(g)
+							cs.bindArgs(ch, g, c.Call.Args, c)
+							collect(ch, g, depth+1)
+						}
+					}
 				}
 			}
 		}
+		collect(s, ev, 0)
 		okLookup := false
 		var theLookup *ssa.Lookup
-		for _, lk := range lookups {
-			k := s.Of(lk.Index).String()
+		var theSym *Sym
+		for _, l := range lookups {
+			k := l.s.Of(l.lk.Index).String()
 			if glob("call<tokens/type3.unpadOriginName>(*paddedOrigin*)", k) || glob("*unpadOriginName*(*paddedOrigin*", k) {
 				okLookup = true
-				theLookup = lk
+				theLookup, theSym = l.lk, l.s
 			}
 			r.Note("%s", "lookup key "+clip(k, 300))
 		}
 		r.Check(okLookup, R4, "issuer looks up unpadOriginName(decrypted paddedOrigin) by exact key", p.Pos(ev.Pos()), "comma-ok map lookup keyed by the unpadded name", "no comma-ok map lookup keyed by unpadOriginName(originTokenRequest.paddedOrigin) was found")
 		if theLookup != nil {
 			// the decrypted request comes from decryptOriginTokenRequest with the request's fields
-			k := s.Of(theLookup.Index).String()
+			k := theSym.Of(theLookup.Index).String()
 			// ... directly, or through an in-module helper that reaches it
 			fromDecrypt := strings.Contains(k, "decryptOriginTokenRequest")
 			if dec := p.Func("~/tokens/type3.decryptOriginTokenRequest"); dec != nil && !fromDecrypt {
@@ -294,7 +312,7 @@ func c20(p *Prog, r *Report) {
 			for _, c := range sitesIn(ev, func(n string) bool { return strings.HasSuffix(n, ".BlindSign") }) {
 				n++
 				dom := false
-				for _, a := range s.ff.At(c.Block()) {
+				for _, a := range p.expandFacts(s, s.ff.At(c.Block()), 0) {
 					if a.Kind == Truth && a.Pol && a.V == okVal {
 						dom = true
 					}
